@@ -152,6 +152,52 @@ def midi_repeat_after_reset(rng, sid):
     return Script(sid, ops, {"module": "midi", "family": "repeat-after-reset"})
 
 
+def midi_identical_repeat(rng, sid):
+    """the SAME message twice, byte for byte, with only messages of other kinds in between (pitch bends, notes,
+    foreign-channel traffic, real-time bytes between two identical control changes; control changes between two
+    identical pitch bends / notes): a receiver that skips a "redundant" repeated message is wrong whenever
+    something else moved the state the message sets (CC 121 after a bend, CC 123 after a note-on, ...)"""
+    ch = rng.randrange(16)
+    other = (ch + 1 + rng.randrange(15)) % 16
+    ops = ["midi.new %d" % ch]
+
+    def cc():
+        return [0xB0 | ch, rng.choice([121, 121, 123, 1, 7, 71, 74, 5, 65, 64]), rng.choice([0, 127, 64, rng.randrange(128)])]
+
+    def bend():
+        return [0xE0 | ch, rng.randrange(128), rng.choice([0, 127, 64, rng.randrange(128)])]
+
+    def note():
+        return [rng.choice([0x90, 0x90, 0x80]) | ch, rng.choice([60, 62, 64, rng.randrange(128)]), rng.choice([0, 100, rng.randrange(1, 128)])]
+
+    def foreign():
+        return [rng.choice([0xB0, 0xE0, 0x90]) | other, rng.choice([121, 123, 1, 60]), rng.randrange(128)]
+
+    msgs = [bend(), note(), cc()]
+    for _ in range(rng.randrange(2, 7)):
+        kind = rng.choice(["cc", "cc", "bend", "note"])
+        m = {"cc": cc, "bend": bend, "note": note}[kind]()
+        between = [f for k, f in (("cc", cc), ("bend", bend), ("note", note)) if k != kind] + [foreign]
+        msgs.append(m)
+        for _ in range(rng.randrange(1, 4)):
+            msgs.append(rng.choice(between)())
+        msgs.append(list(m))
+        if rng.random() < 0.3:
+            msgs.append(list(m))
+    running = rng.random() < 0.3
+    last = None
+    for m in msgs:
+        data = m[1:] if (running and m[0] == last) else m
+        last = m[0]
+        for b in data:
+            if rng.random() < 0.05:
+                ops.append("b %d" % rng.choice([0xF8, 0xFE, 0xFA]))
+            ops.append("b %d" % b)
+        if rng.random() < 0.2:
+            ops.append(rng.choice(["rise", "fall"]))
+    return Script(sid, ops, {"module": "midi", "family": "identical-repeat"})
+
+
 def midi_scripts(rng, n_struct, n_raw, cc=False):
     res = []
     for i in range(n_struct):
@@ -160,6 +206,8 @@ def midi_scripts(rng, n_struct, n_raw, cc=False):
         res.append(midi_raw(rng, "midi-r%d" % i, rng.randrange(20, 300)))
     for i in range(max(n_struct // 10, 6)):
         res.append(midi_repeat_after_reset(rng, "midi-rr%d" % i))
+    for i in range(max(n_struct // 6, 10)):
+        res.append(midi_identical_repeat(rng, "midi-ir%d" % i))
     if cc:
         res.append(midi_cc_all("midi-ccall", rng.randrange(16)))
         for c in (1, 7, 71, 74, 5, 65, 64):
